@@ -407,6 +407,15 @@ func effectiveProtocolVersionRange(config *dtlsConfig) (protocol.Version, protoc
 	}
 	versions = intersectSupportedVersions(versions, curveVersions)
 
+	if !config.includeCertificateSuites() {
+		// A configuration with a pre-shared key and no certificate only
+		// authenticates its peer by that key. DTLS 1.3 has no pre-shared key
+		// mode here and would authenticate the peer by certificate instead.
+		versions = filterSupportedVersions(versions, func(version protocol.Version) bool {
+			return !version.Equal(protocol.Version1_3)
+		})
+	}
+
 	if len(versions) == 0 {
 		return protocol.Version{}, protocol.Version{}, dtlserrors.ErrNoCommonProtocolVersion
 	}
